@@ -9,7 +9,7 @@ import (
 func init() {
 	register(&Check{
 		ID: "C08", Level: "exploration", QuickSecs: 170, ThoroughSecs: 1500,
-		Rule:        "(a) direct rules A <- A t1 [/ A t2] / b1 [/ b2] with tails and bases from {'a','b',\"ab\",[ab],B,'a' B,'b' #{}} and operand rule B from {'b',[ab],'a' 'b'?}, plain and with labelled recursion l:A r:t {action} (value shows the nesting); variants with an error-returning action and a #{} on a base alternative (they re-run in the final non-extending attempt); (b) the E/T/F tower (2 and 3 levels) over one-letter operators; (c) single-cycle indirect pairs X <- Y t / b ; Y <- X u / c entered through either rule, with both name orders (leader first / second). Inputs: all strings over {a,b} up to L (quick 5, thorough 6), over {a,b,c} up to 4 for the tower; configurations {Memoize off/on} x {-, -optimize-parser}, all with -support-left-recursion. Oracle: the reference evaluates the first-entered rule of a cycle by seed growing, which for the stated rule form is (b1/...)(a1/...)* with left-nested values; compared: success, consumed prefix, exact value, error list, state snapshots, termination inside the budget. Non-trivial = the recursion grew at least twice (value nesting depth >= 2) or a final non-extending attempt ran a block.",
+		Rule:        "(a) direct rules A <- A t1 [/ A t2] / b1 [/ b2] with tails and bases from {'a','b',\"ab\",[ab],B,'a' B,'b' #{}} and operand rule B from {'b',[ab],'a' 'b'?}, plain and with labelled recursion l:A r:t {action} (value shows the nesting); variants with an error-returning action and a #{} on a base alternative (they re-run in the final non-extending attempt); nullable base alternatives ('b'?, \"\", 'b'*: an empty seed has to be accepted and grown); (b) the E/T/F tower (2 and 3 levels) over one-letter operators; (c) single-cycle indirect pairs X <- Y t / b ; Y <- X u / c entered through either rule, with both name orders (leader first / second). Inputs: all strings over {a,b} up to L (quick 5, thorough 6), over {a,b,c} up to 4 for the tower; configurations {Memoize off/on} x {-, -optimize-parser}, all with -support-left-recursion. Oracle: the reference evaluates the first-entered rule of a cycle by seed growing, which for the stated rule form is (b1/...)(a1/...)* with left-nested values; compared: success, consumed prefix, exact value, error list, state snapshots, termination inside the budget. Non-trivial = the recursion grew at least twice (value nesting depth >= 2) or a final non-extending attempt ran a block.",
 		Assumptions: []string{"E1 loader", "reference = seed growing at the first rule of the cycle entered at a position"},
 		Run:         runC08,
 	})
@@ -103,6 +103,8 @@ func runC08(c *ShardCtx) {
 		func() *peg.Expr { return peg.Cls(false, false, "a", "b") }, func() *peg.Expr { return peg.Ref("B") },
 		func() *peg.Expr { return peg.Seq(peg.Lit("a"), peg.Ref("B")) }, func() *peg.Expr { return peg.Seq(peg.Lit("b"), peg.StateCode(0)) },
 	}
+	// bases may be nullable (the tails may not): an empty seed must be accepted and grown
+	nullableBases := []func() *peg.Expr{func() *peg.Expr { return peg.Opt(peg.Lit("b")) }, func() *peg.Expr { return peg.Lit("") }, func() *peg.Expr { return peg.Star(peg.Lit("b")) }}
 	bRules := []func() *peg.Expr{func() *peg.Expr { return peg.Lit("b") }, func() *peg.Expr { return peg.Cls(false, false, "a", "b") }, func() *peg.Expr { return peg.Seq(peg.Lit("a"), peg.Opt(peg.Lit("b"))) }}
 	mk := func(rules ...*peg.Rule) *peg.Grammar {
 		g := &peg.Grammar{Rules: rules}
@@ -148,6 +150,24 @@ func runC08(c *ShardCtx) {
 						run(g, inputsAB, variant == 2, def)
 					}
 				}
+			}
+		}
+	}
+	// (a') nullable bases
+	for t1 := range ts {
+		for _, nb := range nullableBases {
+			for variant := 0; variant < 2; variant++ {
+				if c.Expired("nullable base family") {
+					return
+				}
+				var rec *peg.Expr
+				if variant == 0 {
+					rec = peg.Seq(peg.Ref("A"), ts[t1]())
+				} else {
+					rec = peg.Action(0, peg.Seq(peg.Label("l", peg.Ref("A")), peg.Label("r", ts[t1]())))
+				}
+				g := mk(&peg.Rule{Name: "A", Expr: peg.Choice(rec, nb())}, &peg.Rule{Name: "B", Expr: bRules[t1%len(bRules)]()})
+				run(g, inputsAB, false, def)
 			}
 		}
 	}
